@@ -19,6 +19,7 @@ type loopShape struct {
 	post       func(st *State) []*State
 	ghostCells []*Cell
 	ghostName  string
+	exitAssume func(st *State)
 }
 
 func (f *Frame) loopSpec(ord int) *LoopSpec {
@@ -159,6 +160,12 @@ func (f *Frame) execRangeMap(x *ast.RangeStmt, sh *loopShape, mt *types.Map, st 
 		f.ghostCells = map[string]*Cell{}
 	}
 	f.ghostCells[fmt.Sprintf("visited%d", sh.ord)] = visited
+	// ghost iteration counter: a range over a map whose body does not add keys runs exactly
+	// once per entry, so at exit the counter equals the map's length at entry (trusted fact
+	// about Go's map iteration, listed as an assumption)
+	count := in.newCell(fmt.Sprintf("count%d", sh.ord), CVar, nil)
+	st.store[count] = Sc{IntLit(0)}
+	f.ghostCells[fmt.Sprintf("count%d", sh.ord)] = count
 	getVisited := func(st *State) Term { return st.store[visited].(Sc).T }
 	k0 := Term{S: "k!rm", Sort: ks}
 	sh.cond = func(st *State) []condState {
@@ -174,6 +181,7 @@ func (f *Frame) execRangeMap(x *ast.RangeStmt, sh *loopShape, mt *types.Map, st 
 		st.assume(Select(cur.Has, k))
 		in.note("range over map: arbitrary enumeration of entry keys; body may only delete the current key")
 		st.store[visited] = Sc{f.nameIt(st, "visited", Store(vis, k, TTrue))}
+		st.store[count] = Sc{Add(st.store[count].(Sc).T, IntLit(1))}
 		var kv, vv Val
 		kv = in.thaw(k, mt.Key(), f)
 		if x.Value != nil {
@@ -187,7 +195,11 @@ func (f *Frame) execRangeMap(x *ast.RangeStmt, sh *loopShape, mt *types.Map, st 
 		}
 	}
 	sh.post = func(st *State) []*State { return []*State{st} }
-	sh.ghostCells = []*Cell{visited}
+	sh.ghostCells = []*Cell{visited, count}
+	sh.exitAssume = func(st *State) {
+		st.assume(Eq(st.store[count].(Sc).T, mc0.Card))
+		in.note("range over map: the number of iterations equals len(map) at entry")
+	}
 	sh.ghostName = fmt.Sprintf("visited%d", sh.ord)
 	return f.execLoop(sh, st)
 }
@@ -301,6 +313,9 @@ func (f *Frame) execLoopInv(sh *loopShape, spec *LoopSpec, st *State) []Outcome 
 	for _, cs := range conds {
 		yes, no := f.fork(cs.St, cs.T, fmt.Sprintf("loop%d", sh.ord))
 		if no != nil {
+			if sh.exitAssume != nil {
+				sh.exitAssume(no)
+			}
 			outs = append(outs, Outcome{St: no, Kind: ONormal})
 		}
 		if yes == nil {
